@@ -4934,3 +4934,215 @@ def ob_dbscan(ctx, n, min_points):
         res.status, res.detail = 'inconclusive', 'vacuous: no path with a cluster'
     res.time = time.time() - t0
     return res
+
+
+# ---------------------------------------------------------------------------------------------------------------------
+# C02 (job accounting kernels): the insertion step, the finalisation and the hand-over of an insertion context
+
+def ob_insertion_step(ctx, n_tasks):
+    """C02 / C04 kernel (every job is accounted for exactly once, after every single insertion): `apply_insertion_success` (real
+    MIR, with the real `RegistryContext::get_route`, `Registry::use_actor`, `Tour::insert_at`, `Vec::retain`, map removal) from a
+    consistent insertion context - route 0 of actor a0 serves job X, actor a1 is unused, job Y is required, job Z is unassigned
+    with a code, the job J to insert (1 or 2 tasks) is required and symbolically ALSO still listed as unassigned - for a success
+    on a symbolic actor (the used one or the fresh one) at symbolic legal legs: afterwards J lives in exactly one tour with all its
+    tasks in order and nowhere else, X / Y / Z are where they were, a fresh tour is appended exactly when the fresh actor was
+    chosen, and a vehicle is available exactly when no tour uses it.  Then `finalize_insertion_ctx` (required jobs become
+    unassigned, once) and the conversion into a `Solution` (unassigned = every job that is in no tour, once; tours copied)."""
+    from symex import AMapV, ASetV, DynV
+    name = f'insertion_step[tasks={n_tasks}]'
+    res = Result(name)
+    res.bounds = (f'2 actors (one tour with job X; one unused), jobs Y (required), Z (unassigned with a code), job J with {n_tasks} task(s) required and symbolically also unassigned; '
+                  'success actor and insertion legs symbolic; goal callbacks are environment no-ops')
+    t0 = time.time()
+    apply_fn = ctx.prog.find_free('apply_insertion_success')
+    finalize_fn = ctx.prog.find_free('finalize_insertion_ctx')
+    into = [f for nme, f in ctx.prog.functions.items() if nme.endswith('::from') and 'InsertionContext, Option<' in f.header and 'Solution' in f.header]
+    if len(into) != 1:
+        raise Inconclusive(f'From<(InsertionContext, Option<TelemetryMetrics>)> for Solution not found ({len(into)})')
+
+    class Env(drivers.Env):
+        symbolic_maps = True
+
+        def override(self, engine, st, callee, args, dest_ty):
+            base = callee.split('::<')[0]
+            if base.endswith('GoalContext::accept_insertion') or base.endswith('GoalContext::accept_solution_state') or base.endswith('GoalContext::accept_route_state'):
+                return UnitV()
+            if base.endswith('InsertionContext::get_total_cost'):
+                return mk_option(False, ty=dest_ty)
+            if callee.endswith('Multi::roots'):
+                cell = deref_all(args[0])
+                for s_cell in getattr(self, 'multi_task_cells', []):
+                    if args[0].container is s_cell if isinstance(args[0], RefV) else False:
+                        return mk_option(True, self.multi_arc, ty=dest_ty)
+                # fall back: identify by the job id carried in the dimens
+                try:
+                    jid = self.field(cell, 'jobs::Single', 'dimens').table.get('job_id')
+                except Exception:
+                    jid = None
+                if jid is not None and jid.name.startswith('"J#') and getattr(self, 'multi_arc', None) is not None:
+                    return mk_option(True, self.multi_arc, ty=dest_ty)
+                return mk_option(False, ty=dest_ty)
+            if callee.endswith('Activity::retrieve_job'):
+                return NotImplemented
+            return super().override(engine, st, callee, args, dest_ty)
+
+    env = Env(ctx.prog, ctx.layout, 8)
+    eng = symex.Engine(ctx.prog, ctx.layout, env)
+    z = FV.const(0)
+
+    def body(st):
+        env.assumptions.clear()
+        env.multi_arc = None
+        mk_single = lambda nm: ArcV(Cell(env.struct('jobs::Single', places=VecV([]), dimens=StateV({'job_id': Opaque(f'"{nm}"')}))))
+        jobv = lambda s_: EnumV('jobs::Job', 0, {0: [s_]})
+        sX, sY, sZ = mk_single('X'), mk_single('Y'), mk_single('Z')
+        if n_tasks == 1:
+            tasks = [mk_single('J')]
+            J = jobv(tasks[0])
+        else:
+            tasks = [mk_single(f'J#{i}') for i in range(n_tasks)]
+            mo = ctx.layout.fields('jobs::Multi')
+            multi = Agg('struct', [Opaque(f) for f in mo], 'jobs::Multi')
+            multi.fields[mo.index('jobs')] = VecV(list(tasks))
+            env.multi_arc = ArcV(Cell(multi))
+            J = EnumV('jobs::Job', 1, {1: [env.multi_arc]})
+        # two actors with prototype routes; actor 0 drives a tour with X
+        protos, actors = [], []
+        for i in range(2):
+            rc = TourSpec(env, 0, closed=True, prefix=f'p{i}_').build()
+            route = env.field(rc, 'context::RouteContext', 'route')
+            tour_p = env.field(route, 'route::Route', 'tour')
+            tour_p.fields[ctx.layout.fields('solution::tour::Tour').index('jobs')] = AMapV(is_set=True)      # job set with identities (empty prototype)
+            actors.append(env.field(route, 'route::Route', 'actor'))
+            protos.append(ArcV(Cell(rc)))
+        acts0 = [env.activity(IV(0), z, z, FV.max_value(), z, z, has_job=False), env.activity(IV(0), z, z, FV.max_value(), z, z, job=sX),
+                 env.activity(IV(0), z, z, FV.max_value(), z, z, has_job=False)]
+        tour0 = env.struct('solution::tour::Tour', activities=VecV(acts0), jobs=AMapV([(jobv(sX), UnitV())], True), is_closed=BV(True))
+        rc0 = env.struct('context::RouteContext', route=env.struct('route::Route', actor=actors[0], tour=tour0), state=StateV(),
+                         cache=env.struct('context::RouteCache', is_stale=BV(False)))
+        registry = env.struct('registry::Registry', available=AMapV([(IV(0), ASetV(list(actors), [z3.BoolVal(False), z3.BoolVal(True)]))]),
+                              index=AMapV([(a, IV(0)) for a in actors]), all=VecV(list(actors)), random=ArcV(Cell(DynV('random'))))
+        rctx = env.struct('context::RegistryContext', registry=registry, index=AMapV([(actors[i], protos[i]) for i in range(2)]))
+        also_unassigned = z3.Bool('J_also_listed_as_unassigned')
+        listed = eng.split_bool(st, also_unassigned)
+        code = EnumV('context::UnassignmentInfo', 1, {1: [Agg('struct', [IV(3, 'i32')], 'ViolationCode')]})
+        unassigned = AMapV([(jobv(sZ), code)] + ([(J, symex.copy_value(code))] if listed else []))
+        sol = env.struct('context::SolutionContext', required=VecV([jobv(sY), J]), ignored=VecV([]), unassigned=unassigned, locked=AMapV(is_set=True),
+                         routes=VecV([rc0]), registry=rctx, state=StateV())
+        po = ctx.layout.fields('domain::Problem')
+        problem = ArcV(Cell(Agg('struct', [ArcV(Cell(Opaque(f))) for f in po], 'domain::Problem')))
+        ictx = Cell(env.struct('context::InsertionContext', problem=problem, solution=sol, environment=ArcV(Cell(Opaque('environment')))))
+        # the success: actor and legs symbolic
+        which = z3.Int('success_actor')
+        a = eng.choose(st, [(which == 0, 0), (which == 1, 1)])
+        n_legs = 2 if a == 0 else 1
+        legs = []
+        lo = 0
+        for t in range(n_tasks):
+            li = z3.Int(f'leg_of_task{t}')
+            leg = eng.choose(st, [(li == k, k) for k in range(lo, n_legs + t)])
+            legs.append(leg)
+            lo = leg + 1
+        activities = VecV([Agg('tuple', [env.activity(IV(0), z, z, FV.max_value(), z, z, job=tasks[t]), IV(legs[t])], '') for t in range(n_tasks)])
+        success = env.struct('insertions::InsertionSuccess', cost=env.struct('insertions::InsertionCost', data=VecV([z])), job=J, activities=activities, actor=actors[a])
+        eng.exec_fn(st, apply_fn, [RefV(ictx, 0, True), success])
+        after_apply = symex.copy_value(ictx.v) if False else None
+        snap = observe(env, ictx.v, actors, {'X': sX, 'Y': sY, 'Z': sZ}, tasks)
+        eng.exec_fn(st, finalize_fn, [RefV(ictx, 0, True)])
+        snap_final = observe(env, ictx.v, actors, {'X': sX, 'Y': sY, 'Z': sZ}, tasks)
+        solution = eng.exec_fn(st, into[0], [Agg('tuple', [ictx.v, mk_option(False, ty='Option<TelemetryMetrics>')], '')])
+        un = [name_of(env, deref_all(x).fields[0], {'X': sX, 'Y': sY, 'Z': sZ}, tasks) for x in env.field(solution, 'domain::Solution', 'unassigned').items]
+        s_routes = [[name_of_single(env, a_, {'X': sX, 'Y': sY, 'Z': sZ}, tasks) for a_ in env.field(env.field(r, 'route::Route', 'tour'), 'solution::tour::Tour', 'activities').items]
+                    for r in env.field(solution, 'domain::Solution', 'routes').items]
+        return (a, legs, listed, snap, snap_final, sorted(un), s_routes)
+
+    def name_of_single(env, act, named, tasks):
+        jb = env.field(deref_all(act), 'route::Activity', 'job')
+        if jb.variant() != 1:
+            return None
+        c = jb.payload[1][0].cell
+        for nm, s_ in named.items():
+            if s_.cell is c:
+                return nm
+        for i, s_ in enumerate(tasks):
+            if s_.cell is c:
+                return f'J{i}' if len(tasks) > 1 else 'J'
+        return '?'
+
+    def name_of(env, jobval, named, tasks):
+        jv = deref_all(jobval)
+        c = jv.payload[jv.variant()][0].cell
+        if env.multi_arc is not None and c is env.multi_arc.cell:
+            return 'J'
+        for nm, s_ in named.items():
+            if s_.cell is c:
+                return nm
+        return 'J' if any(s_.cell is c for s_ in tasks) else '?'
+
+    def observe(env, ictx_v, actors, named, tasks):
+        sol = env.field(ictx_v, 'context::InsertionContext', 'solution')
+        routes = env.field(sol, 'context::SolutionContext', 'routes').items
+        out = {'routes': [], 'route_actors': [], 'tour_jobs': []}
+        for rc in routes:
+            rc = deref_all(rc)
+            route = env.field(rc, 'context::RouteContext', 'route')
+            tour = env.field(route, 'route::Route', 'tour')
+            out['routes'].append([name_of_single(env, a_, named, tasks) for a_ in env.field(tour, 'solution::tour::Tour', 'activities').items])
+            a_cell = deref_all(env.field(route, 'route::Route', 'actor')).cell
+            out['route_actors'].append(next(i for i, x in enumerate(actors) if x.cell is a_cell))
+            out['tour_jobs'].append(sorted(name_of(env, k, named, tasks) for k, _ in env.field(tour, 'solution::tour::Tour', 'jobs').entries))
+        out['required'] = [name_of(env, j, named, tasks) for j in env.field(sol, 'context::SolutionContext', 'required').items]
+        out['unassigned'] = sorted(name_of(env, k, named, tasks) for k, _ in env.field(sol, 'context::SolutionContext', 'unassigned').entries)
+        reg = env.field(env.field(sol, 'context::SolutionContext', 'registry'), 'context::RegistryContext', 'registry')
+        avail = {}
+        for _, sv in env.field(reg, 'registry::Registry', 'available').entries:
+            for k, p in zip(sv.keys, sv.present):
+                avail[next(i for i, x in enumerate(actors) if x.cell is k.cell)] = p
+        out['available'] = avail
+        return out
+
+    paths = eng.explore(body, max_paths=4000)
+    res.paths = len(paths)
+    res.functions |= eng.functions_used
+    for st, out in paths:
+        if out is None:
+            if not no_panic(ctx, res, env, st, what=name):
+                break
+            continue
+        a, legs, listed, snap, fin, sol_un, sol_routes = out
+        jn = ['J'] if n_tasks == 1 else [f'J{i}' for i in range(n_tasks)]
+        base = [None, 'X', None] if a == 0 else [None, None]
+        exp = list(base)
+        for t, leg in enumerate(legs):
+            exp.insert(leg + 1, jn[t])
+        exp_routes = [exp] if a == 0 else [[None, 'X', None], exp]
+        problems = []
+        if snap['routes'] != exp_routes:
+            problems.append(f'tours after the insertion {snap["routes"]}, expected {exp_routes}')
+        if snap['route_actors'] != ([0] if a == 0 else [0, 1]):
+            problems.append(f'tours are driven by actors {snap["route_actors"]}')
+        exp_tour_jobs = [['J', 'X']] if a == 0 else [['X'], ['J']]
+        if snap['tour_jobs'] != exp_tour_jobs:
+            problems.append(f'job sets of the tours {snap["tour_jobs"]}, expected {exp_tour_jobs}')
+        if snap['required'] != ['Y']:
+            problems.append(f'required after the insertion: {snap["required"]}, expected [Y]')
+        if snap['unassigned'] != ['Z']:
+            problems.append(f'unassigned after the insertion: {snap["unassigned"]}, expected [Z]')
+        if fin['required'] != [] or fin['unassigned'] != ['Y', 'Z']:
+            problems.append(f'after finalisation: required {fin["required"]}, unassigned {fin["unassigned"]}; expected [] and [Y, Z]')
+        if sol_un != ['Y', 'Z']:
+            problems.append(f'unassigned list of the Solution: {sol_un}, expected [Y, Z]')
+        if sol_routes != exp_routes:
+            problems.append(f'tours of the Solution {sol_routes}, expected {exp_routes}')
+        conds = [z3.BoolVal(not problems), z3.Not(snap['available'][0]), snap['available'][1] == z3.BoolVal(a == 0)]
+        if not decide_claim(ctx, res, env, st, z3.And(*conds), what=f'{name}: success on actor {a} at legs {legs} (J also unassigned: {listed}): ' + ('; '.join(problems)[:500] or 'vehicle availability')):
+            if res.status == 'violated':
+                res.case = {'kind': 'insertion_step', 'tasks': n_tasks, 'actor': a, 'legs': legs, 'also_unassigned': bool(listed)}
+            break
+        if not no_panic(ctx, res, env, st, what=name):
+            break
+        res.witnesses += 1
+    if res.status == 'holds' and res.witnesses == 0:
+        res.status, res.detail = 'inconclusive', 'vacuous'
+    res.time = time.time() - t0
+    return res
